@@ -246,6 +246,11 @@ func init() {
 				if b, ok := under(elem).(*types.Basic); ok && b.Kind() == types.Uint8 {
 					lim = byteLimit
 				}
+				// first the gross violation (more than 64 Mi elements: a
+				// counterexample the native replay can measure), then the exact bound
+				if !n.K {
+					e.Assert(label, e.norm(sym.Or(sym.Sle(n, lim), sym.Sle(n, sym.Const(n.W, 1<<26)))), "", sym.Bool(false))
+				}
 				e.Assert(label, e.norm(sym.Sle(n, lim)), "", sym.Bool(false))
 			}
 			return nil
@@ -367,6 +372,7 @@ func init() {
 		"github.com/jackc/pgx/v5/pgtype.NewMap":              modelPgNewMap,
 		"(*github.com/jackc/pgx/v5/pgtype.Map).Encode":       modelPgEncode,
 		"(*github.com/jackc/pgx/v5/pgtype.Map).TypeForOID":   modelPgTypeForOID,
+		"(*github.com/jackc/pgx/v5/pgtype.Map).PlanEncode":   modelPgPlanEncode,
 		"(*github.com/jackc/pgx/v5/pgtype.Map).RegisterType": noop,
 
 		// ---- crypto/tls ----
